@@ -105,6 +105,21 @@ def continuous_cases(ctx: Ctx, bisect) -> None:
                             continue
                         ctx.count((name, lo, precision, shape, str(dtype)), n=1)
                         slack = 8 * torch.finfo(dtype).eps * max(abs(lo), abs(hi), 1.0)
+                        # the caller's bracket and target tensors (full output shape) are inputs, not work space: they are intact
+                        # afterwards, so a second call given the very same tensors for other targets is as good as the first
+                        if not (bool((lower == lo).all()) and bool((upper == hi).all()) and torch.equal(target, f(root))):
+                            ctx.violation("bisect:arguments-modified", "bisect changed the bracket / target tensors passed by the caller",
+                                          {"family": name, "bracket": [lo, hi], "shape": list(shape), "lower_after": lower.flatten().tolist()[:4], "upper_after": upper.flatten().tolist()[:4]})
+                            continue
+                        if precision == 1e-4 and shape == (5,):
+                            root2 = lower + (1 - frac) * (upper - lower)
+                            try:
+                                again = bisect(f, f(root2), lower, upper, precision=precision, max_iter=200)
+                                if bool((~(((again - root2).abs() <= precision + slack) | (f(again) == f(root2)))).any()):
+                                    ctx.violation("bisect:bracket-reused", "a second bisect call given the same bracket tensors returns points farther than `precision` from the roots",
+                                                  {"family": name, "bracket": [lo, hi], "max_error": float((again - root2).abs().max())})
+                            except Exception as e:
+                                ctx.violation("bisect:bracket-reused", f"a second bisect call given the same bracket tensors raised {type(e).__name__}", {"family": name, "error": repr(e)[:200]})
                         # flat float plateaus: accept any point whose function value equals the target's
                         err = (got - root).abs()
                         bad = ~((err <= precision + slack) | (f(got) == target))
